@@ -941,4 +941,68 @@ theorem rt_frames (cfg : Cfg) (mtu : UInt16) (hmin : (if cfg.addDONL then 6 else
     · exact ih (fun g hg => hf g (by simp [hg])) _
         (fun hd ps hps p hp => hnofu hd ps (by simp [hps]) p hp)
 
+/-- `rt_frames` with the options set per call: any sequence of (options, frame) calls, any value of
+    the DONL counter the payloader starts with -/
+theorem rt_calls (mtu : UInt16) (calls : List RtCall)
+    (hwf : ∀ c ∈ calls, (if c.1.addDONL then 6 else 4) ≤ mtu.toNat ∧ C14.frameWF c.2 = true) (d : UInt16)
+    (hreg : rtKFF mtu d calls = false) :
+    C14.rtOkF mtu calls (rtObsF mtu d calls) = true := by
+  induction calls generalizing d with
+  | nil => rfl
+  | cons c cs ih =>
+    obtain ⟨cfg, f⟩ := c
+    simp only [rtKFF, Bool.or_eq_false_iff, Bool.and_eq_false_iff] at hreg
+    simp only [rtObsF, C14.rtOkF, Bool.and_eq_true]
+    obtain ⟨h1, h2⟩ := hwf (cfg, f) (by simp)
+    refine ⟨?_, ?_⟩
+    · refine payload_frame cfg mtu d f h2 h1 (fun hd p hp => ?_)
+      rcases hreg.1 with h | h
+      · simp [hd] at h
+      · cases hfu : isFU p with
+        | false => rfl
+        | true =>
+          have : (payload cfg mtu d (some (C14.frameBytes f))).1.any isFU = true :=
+            List.any_eq_true.mpr ⟨p, hp, hfu⟩
+          rw [this] at h; simp at h
+    · exact ih (fun c hc => hwf c (by simp [hc])) _ hreg.2
+
+/-- a history whose options never change: the per-call observation, hypotheses and region are the
+    per-history ones -/
+theorem rtObsF_const (cfg : Cfg) (mtu d : UInt16) (frames : List (List (Nat × Bytes))) :
+    rtObsF mtu d (frames.map fun f => (cfg, f)) =
+      (payloadHist cfg d (frames.map fun f => (mtu, some (C14.frameBytes f)))).map
+        fun ps => some (ps.map (pktObs cfg.addDONL)) := by
+  induction frames generalizing d with
+  | nil => rfl
+  | cons f fs ih => simp only [List.map_cons, rtObsF, payloadHist, ih]
+
+theorem rtKFF_const (cfg : Cfg) (mtu d : UInt16) (frames : List (List (Nat × Bytes))) :
+    rtKFF mtu d (frames.map fun f => (cfg, f)) =
+      (cfg.addDONL && (payloadHist cfg d (frames.map fun f => (mtu, some (C14.frameBytes f)))).any (·.any isFU)) := by
+  induction frames generalizing d with
+  | nil => simp [rtKFF, payloadHist]
+  | cons f fs ih =>
+    simp only [List.map_cons, rtKFF, payloadHist, ih, List.any_cons]
+    cases cfg.addDONL <;> simp
+
+theorem rtOkF_const (cfg : Cfg) (mtu : UInt16) (frames : List (List (Nat × Bytes)))
+    (os : List (Option (List C14.PktObs))) :
+    C14.rtOkF mtu (frames.map fun f => (cfg, f)) os = C14.rtOk cfg mtu frames os := by
+  induction frames generalizing os with
+  | nil => cases os <;> rfl
+  | cons f fs ih =>
+    match os with
+    | [] => rfl
+    | none :: _ => rfl
+    | some o :: os => simp only [List.map_cons, C14.rtOkF, C14.rtOk, ih]
+
+theorem rtWFF_const (cfg : Cfg) (mtu : UInt16) (frames : List (List (Nat × Bytes))) (hne : frames ≠ []) :
+    rtWFF mtu (frames.map fun f => (cfg, f)) = rtWF cfg mtu frames := by
+  simp only [rtWFF, rtWF, List.all_map, Function.comp_def]
+  by_cases hm : (if cfg.addDONL then 6 else 4) ≤ mtu.toNat
+  · simp only [hm, decide_true, Bool.true_and]
+  · simp only [hm, decide_false, Bool.false_and, List.all_eq_false]
+    match frames, hne with
+    | f :: _, _ => exact ⟨f, by simp, by simp⟩
+
 end Rtp.Model.H265
